@@ -88,7 +88,7 @@ func (r *Run) collectRaces() {
 				r.mu.Lock()
 				r.counters["race_out_of_scope"]++
 				if len(r.incidentalRaces) < 10 {
-					r.incidentalRaces = append(r.incidentalRaces, sig)
+					r.incidentalRaces = append(r.incidentalRaces, sig+"\n"+truncate(acc, 1800))
 				}
 				r.mu.Unlock()
 				continue
